@@ -892,7 +892,7 @@ def check_czar(run, exe, model, cases, scratch):
             run.violation("czar:gather-deadlock", "the walkers did not complete the collective CZAR gather (%s)" % str(e)[:200], {"kind": "czar", "case": c})
             continue
         lines = []
-        for (t, dumps, pr) in res:
+        for (t, dumps, pr, before) in res:
             if any(d is None or d.get("zcnt") is None for d in dumps):
                 run.violation("czar:no-state", "a walker printed no CZAR state after the gather at step %d" % t, {"kind": "czar", "case": c})
                 lines = None
@@ -904,7 +904,36 @@ def check_czar(run, exe, model, cases, scratch):
         rc, mout, err = V.run_lines(model, lines, timeout=300)
         if rc != 0 or len(mout) != len(lines):
             raise V.InfraError("C14 model driver failed: rc=%s %s" % (rc, err[-500:]))
-        for (t, dumps, pr), mo in zip(res, mout):
+        # the gather as an operation of the model (czar_gather_step): what every walker held before -> what it must hold after
+        glines = []
+        def gfmt(d):
+            return ";".join([",".join(str(x) for x in d[k_]) for k_ in ("cnt", "lcnt", "ocnt", "zcnt")] +
+                            [",".join(V.hexf(x) for x in d[k_]) for k_ in ("sum", "lsum", "osum", "zsum")])
+        for (t, dumps, pr, before) in res:
+            glines.append("GATHER %d %d %d %s" % (c["n"], len(before[0]["cnt"]), len(before[0]["sum"]), " ".join(gfmt(d) for d in before)))
+        rc, gout, err = V.run_lines(model, glines, timeout=300)
+        if rc != 0 or len(gout) != len(glines):
+            raise V.InfraError("C14 model driver failed: rc=%s %s" % (rc, err[-500:]))
+        frame_bad = False
+        for (t, dumps, pr, before), go in zip(res, gout):
+            tk = go.split()
+            for w_, (d, mw) in enumerate(zip(dumps, tk[1:1 + c["n"]])):
+                fields = ("cnt", "lcnt", "ocnt", "zcnt", "sum", "lsum", "osum", "zsum")
+                mvals = [[(float.fromhex(x) if f_.endswith("sum") else int(x)) for x in part.split(",")] for f_, part in zip(fields, mw.split(";"))]
+                diff = [f_ for f_, mv in zip(fields, mvals) if list(d[f_]) != mv]
+                if diff:
+                    run.mismatch("czar:frame", {"case": c, "step": t, "walker": w_, "fields": diff},
+                                 {f_: d[f_] for f_ in diff}, "czar_gather_step leaves these grids as they were: %s" % {f_: before[w_][f_] for f_ in diff})
+                    run.violation("czar:gather-changes-other-grids", "the CZAR gather at step %d (write_output_files between two exchanges) changed %s of walker %d: "
+                                  "before %s, after %s" % (t, diff, w_, {f_: before[w_][f_] for f_ in diff}, {f_: d[f_] for f_ in diff}),
+                                  {"kind": "czar", "case": c, "step": t})
+                    frame_bad = True
+                    break
+            if frame_bad:
+                break
+        if frame_bad:
+            continue
+        for (t, dumps, pr, before), mo in zip(res, mout):
             g = dumps[0]
             # oracle on the implementation alone: replica 0's gathered grids = sum of every walker's z grids, each once
             ecnt = [sum(d["zcnt"][i] for d in dumps) for i in range(len(g["zcnt"]))]
